@@ -75,9 +75,13 @@ def roles(crate):
     if len(us) != 2:
         raise Anchor("Reader: expected two usize cursors")
     r.crate = crate
-    r.refill = util.need_body(crate, "Reader::<'a>::refill")
-    r.peek = util.need_body(crate, "Reader::<'a>::peek")
-    r.skip_ws = util.need_body(crate, "Reader::<'a>::skip_whitespace")
+    # private roles by behaviour (the historical names are only a fast path): refill reads from the source, peek
+    # returns one byte of the buffer, skip_whitespace is the loop over is_ascii_whitespace
+    entries = [m_ for m_ in util.methods_of(crate, "Reader") if m_.vis == "pub"] + [b_ for b_ in crate.bodies if not b_.is_closure and b_.name == "read" and (crate.impl_of(b_) or {}).get("trait", "") and str((crate.impl_of(b_) or {}).get("trait")).endswith("Readable")]
+    calls_named = lambda b_, nm_, tr_=None: any(t_["fn"].get("name") == nm_ and (tr_ is None or t_["fn"].get("trait") == tr_) for _bb, t_ in b_.calls())
+    r.refill = util.resolve_role(crate, entries, "refill", lambda b_: not util.self_recursive(b_) and calls_named(b_, "read", "std::io::Read") and "Reader<" in str((crate.impl_of(b_) or {}).get("self_ty")), "the Reader method that reads from the source", named_ok=lambda _b: True)
+    r.peek = util.resolve_role(crate, entries, "peek", lambda b_: not util.self_recursive(b_) and str(b_.locals[0]["ty"]) == "u8" and b_.arg_count == 1 and "Reader<" in str((crate.impl_of(b_) or {}).get("self_ty")) and b_.key != r.refill.key, "the Reader method that returns the byte under the cursor", named_ok=lambda _b: True)
+    r.skip_ws = util.resolve_role(crate, entries, "skip_whitespace", lambda b_: not util.self_recursive(b_) and calls_named(b_, "is_ascii_whitespace") and str(b_.locals[0]["ty"]) == "()" and b_.arg_count == 1 and "Reader<" in str((crate.impl_of(b_) or {}).get("self_ty")), "the Reader method that skips ASCII whitespace", named_ok=lambda _b: True)
     # private helpers reachable from refill and called from nowhere else belong to refill (`read_retrying`)
     cand = util.private_helpers(crate, "Reader", exclude=[r.refill, r.peek, r.skip_ws])
     allowed = util.allowed_writers(crate, {r.refill.name}, cand)
@@ -205,7 +209,8 @@ class Ctx:
             return self.cache[k]
         inline = {self.r.peek.key} if inline_peek and body.key != self.r.peek.key else set()
         inline |= {h.key for h in self.r.helpers if h.key != body.key}
-        I = absint.Interp(body, inline=inline, hooks={"post_call": self.post_call, "loop_head": self.loop_head}, assume=self.assume)
+        # closures handed to inlined helpers (fold_token(init, |acc, byte| ..)) and Option/bool combinators are followed
+        I = absint.Interp(body, inline=inline, hooks={"post_call": self.post_call, "loop_head": self.loop_head}, assume=self.assume, features=("fncall", "comb"))
         I.record_index_reads = True
         # the reader parameter
         I.reader_place = None
@@ -468,8 +473,13 @@ def _refill_rules(col, cx, r, sfx):
         cw = [e for e in evs if e.kind == "call" and e.extra.get("name") == "copy_within"]
         pre_stores = [e for e in stores if evs.index(e) < evs.index(rd)]
         if compact:
+            # an empty window (begin == end on this path) has nothing to move: the copy may be skipped
+            empty_window = any(f[0] == "eq" and isinstance(f[1], tuple) and f[1] and f[1][0] == "bin" and {f[1][2], f[1][3]} == {beg0, end0} and ((f[1][1] == "Eq" and f[2] == 1) or (f[1][1] == "Ne" and f[2] == 0)) for f in st.facts)
             ok = len(cw) == 1 and cw[0].args[1][0] == "agg" and cw[0].args[1][2] == (beg0, end0) and cw[0].args[2] == mk_int(0) and evs.index(cw[0]) < evs.index(rd)
             ok = ok and cw[0].args[0][0] == "ref" and buf_field(cw[0].args[0][1], r) == ("field", rp, r.BUF)
+            if not cw and empty_window and _copy_skipped_only_when_empty(cx, b, r):
+                ok = True
+                cw = [rd]
             vals = {e.place[2]: e.val for e in pre_stores if e.place[0] == "field"}
             ok = ok and util.lin_equal(vals.get(r.END, mk_int(-1)), ("bin", "Sub", end0, beg0)) and vals.get(r.BEGIN) == mk_int(0)
             if ok:
@@ -509,7 +519,7 @@ def _refill_rules(col, cx, r, sfx):
                 continue
             if f[0] == "eq" and t[0] == "bin" and t[1] in ("Eq", "Ne") and t[3] == mk_int(0) and any(s == rd.res for s in subterms(t[2])):
                 zero, zt = (bool(f[2]) == (t[1] == "Eq")), t[2]
-            elif f[0] in ("eq", "ne") and f[2] == 0 and t[0] in ("call", "proj", "cast") and any(s == rd.res for s in subterms(t)):
+            elif f[0] in ("eq", "ne") and f[2] == 0 and t[0] in ("call", "proj", "cast") and any(s == rd.res for s in subterms(t)) and not (t[0] == "call" and str(t[1]).rsplit("::", 1)[-1] not in ("unwrap", "expect", "unwrap_or", "unwrap_or_default", "unwrap_unchecked", "branch")):
                 zero, zt = (f[0] == "eq"), t
         if bytes_t is None and zero and not endst:
             bytes_t = zt  # `0 => eof = true` leaves end as it is: end += 0
@@ -635,6 +645,30 @@ def effects_operands(rv):
         yield o
 
 
+def _copy_skipped_only_when_empty(cx, b, r):
+    """Judged WITHOUT the call-site precondition begin == end (which makes every window empty and prunes the other
+    branch): on every compacting path of refill the window is either moved by copy_within(begin..end, 0) or the code
+    itself has tested begin == end; and the copy exists on some path."""
+    I2 = cx.analyse(b, pre_eq=False)
+    rp = I2.reader_place
+    m0 = ("m0",)
+    beg0 = ("load", m0, ("field", rp, r.BEGIN))
+    end0 = ("load", m0, ("field", rp, r.END))
+    seen_copy = False
+    for st in I2.final_states:
+        if ("eq", ("bin", "Ne", beg0, mk_int(0)), 1) not in st.facts:
+            continue
+        evs = st.event_list()
+        cw = [e for e in evs if e.kind == "call" and e.extra.get("name") == "copy_within"]
+        if cw:
+            seen_copy = True
+            continue
+        empty = any(f[0] == "eq" and isinstance(f[1], tuple) and f[1] and f[1][0] == "bin" and {f[1][2], f[1][3]} == {beg0, end0} and ((f[1][1] == "Eq" and f[2] == 1) or (f[1][1] == "Ne" and f[2] == 0)) for f in st.facts)
+        if not empty:
+            return False
+    return seen_copy
+
+
 def _sign_rules(col, cx, crate, r, sfx):
     fk = util.fkey
     signed = ("i8", "i16", "i32", "i64", "i128", "isize")
@@ -643,26 +677,27 @@ def _sign_rules(col, cx, crate, r, sfx):
         if not (imp is not None and (imp.get("trait") or "").endswith("Readable") and b.name == "read" and imp["self_ty"] in signed):
             continue
         I = cx.analyse(b)
-        res_l = b.local_by_name("result")
-        if res_l is None:
-            col.violation("W6" + sfx, "%s|anchor" % fk(b), b.loc(), "no `result` accumulator found")
-            continue
         found = {}
-        for st in [s for l in I.backedge_states.values() for s in l]:
-            new = st.env.get(res_l)
+        # the accumulator is whichever loop-carried variable is updated as old*10 (+|-) digit, in the reader itself or in
+        # an inlined helper's loop (the step may be a closure handed to a generic fold)
+        for st in [s for l in I.backedge_states.values() for s in l] + list(I.inl_back):
             minus = None
             for f in st.facts:
                 t = f[1]
                 if f[0] == "eq" and isinstance(t, tuple) and t and t[0] == "bin" and t[1] == "Eq" and t[3] == mk_int(45):
                     minus = bool(f[2])
-            # new = old*10 (+|-) digit
-            if not (isinstance(new, tuple) and new[0] == "bin" and new[1] in ("Add", "Sub")):
-                continue
-            lhs = new[2]
-            okm = lhs[0] == "bin" and lhs[1] == "Mul" and lhs[3] == mk_int(10) and lhs[2][0] == "phi"
-            if minus is None or not okm:
-                continue
-            found[(minus, new[1])] = st
+            for new in st.env.values():
+                # new = old*10 (+|-) digit
+                if not (isinstance(new, tuple) and new and new[0] == "bin" and new[1] in ("Add", "Sub")):
+                    continue
+                lhs = new[2]
+                okm = isinstance(lhs, tuple) and lhs and lhs[0] == "bin" and lhs[1] == "Mul" and lhs[3] == mk_int(10) and lhs[2][0] == "phi"
+                if minus is None or not okm:
+                    continue
+                found[(minus, new[1])] = st
+        if not found:
+            col.violation("W6" + sfx, "%s|anchor" % fk(b), b.loc(), "no decimal accumulator (x = x*10 +/- digit in a loop) found")
+            continue
         okk = (True, "Sub") in found and (False, "Add") in found and (True, "Add") not in found and (False, "Sub") not in found
         if okk:
             col.ok("W6" + sfx, b.loc(), "%s|minus-branch" % fk(b), "'-' branch: result*10 - digit")
